@@ -1,4 +1,6 @@
 import RedoModel.Lemmas.Deps
+import RedoModel.Lemmas.DepsSoundK8
+import RedoModel.Lemmas.DepsSoundK0b
 /-!
 # C10 — A kill at any moment is recovered from by simply running redo again
 Property theorems only.  Model: the engine model with its kill operation (`UserOp.crashCmd`: the
@@ -66,5 +68,37 @@ theorem rename_window_is_taken_for_a_hand_edit (E : Engine) (d : Defects) (cx : 
     cases h : w.fs t <;> simp_all
   have hex' : (w.fs t).isSome = true := hex
   simp [startSelf, hg, hno, hdo, hns, hex', existsF, setRec, ev, setOverride]
+
+/-! ### Recovery over whole histories (full engine model, plain scripts, kills at any script step) -/
+
+/-- **A kill at any script step is recovered from.**  After any plain history of the full engine model in which
+any number of builds were killed (the whole process tree, when any script reaches any step — everything committed
+before persists: flagged rows, re-declared rows, finished sub-builds; nothing after happens), whenever a later
+`redo-ifchange ts` / `redo ts` exits 0 every target named is up to date.  Hypothesis `SingleDo`: every target has at
+most one .do candidate — without it the statement is false (`recovery_without_single_do_is_false`, a recorded
+finding of the real tool).  Kill windows inside `record_new_state` (rename before commit) and after `redo-stamp` are
+separate recorded findings; the model has the second as a kill point, which plain scripts never reach. -/
+theorem recovers_plain (n : Nat) (rules : Nat → List Nat) (rank : Nat → Nat) (ops : List UserOp) (ts : List Nat)
+    (kg forced : Bool) (hr : RulesOk rules) (hS : SingleDo rules) (hp : ∀ op ∈ ops, PlainOpK rules op)
+    (hrk : ∀ w ∈ worldsOf n {} (initWorld rules) ops, Ranked rank w) (hN : ∀ f, rank f < n)
+    (hok : OpsOk n (initWorld rules) ops) :
+    let w := ops.foldl (fun w op => (applyOp {} n op w).2) (initWorld rules)
+    let r := runCmd {} n (if forced then .redo ts kg else .ifchange ts kg) w
+    r.1.status = 0 → ∀ t ∈ ts, UpToDateD r.2 t :=
+  noStalePlainK_partial n rules rank ops ts kg forced hr hS hp hrk hN hok
+
+/-- The between-commands invariant of the soundness proof survives a killed run: "no lock or half-written state
+from the killed run misleads later runs", and targets built afterwards keep reacting to source changes (apply
+`recovers_plain` to the longer history). -/
+theorem kill_keeps_invariant {rank : Nat → Nat} {N : Nat} {w : World} (d : Defects) (hN : ∀ f, rank f < N)
+    (hS : SingleDo w.rules) (h : Btw rank w) (ts : List Nat) (t k : Nat) :
+    Btw rank (applyOp d N (.crashCmd ts t k) w).2 ∧ (applyOp d N (.crashCmd ts t k) w).2.rules = w.rules :=
+  crashCmd_btw d hN hS h ts t k
+
+/-- Without `SingleDo` the recovery statement is false in the model — and in the tool (known finding
+`killed-build-forgets-old-dofile`): the .do search of the killed rebuild has already replaced the row on the removed
+.do by a must-not-exist row; the fallback .do is current for another target's sake; nothing else records what the
+file was built by. -/
+theorem recovery_without_single_do_is_false : ¬ NoStalePlainK := not_noStalePlainK
 
 end C10
